@@ -7,6 +7,8 @@ that asked must treat that as "shape not recognised".
 
 Values: bool / int / str; enum values V(path, args); structs as dict; tuples as tuple; closures; OPAQUE for anything
 unknown that is only passed around (never inspected)."""
+import re
+
 from hirq import render, render_pat, short
 
 
@@ -56,6 +58,19 @@ class V(tuple):
 
     def __repr__(self):
         return self[0] + ("(%s)" % ", ".join(map(repr, self[1])) if self[1] else "")
+
+
+def rust_float_str(f):
+    """text of an f64 as Rust's Display prints it (no exponent, no trailing `.0`)"""
+    from decimal import Decimal
+    if f != f:
+        return "NaN"
+    if f in (float("inf"), float("-inf")):
+        return "inf" if f > 0 else "-inf"
+    t = format(Decimal(repr(f)), "f")
+    if "." in t:
+        t = t.rstrip("0").rstrip(".")
+    return "-0" if t == "0" and str(f).startswith("-") else t
 
 
 def some(x):
@@ -219,7 +234,11 @@ class Interp:
             v = self.ev(n["e"], env)
             ty = str(n.get("ty", ""))
             if isinstance(v, float) and ty in ("i64", "u64", "usize", "i32", "u32", "isize", "u8", "i8", "u16", "i16"):
-                return int(v)
+                if v != v:
+                    return 0
+                bits = {"i64": 63, "isize": 63, "i32": 31, "i16": 15, "i8": 7}.get(ty)
+                lo, hi = (-(2 ** bits), 2 ** bits - 1) if bits else (0, 2 ** {"u64": 64, "usize": 64, "u32": 32, "u16": 16, "u8": 8}[ty] - 1)
+                return max(lo, min(hi, int(v)))      # `as` saturates
             if isinstance(v, int) and not isinstance(v, bool) and ty in ("f64", "f32"):
                 return float(v)
             return v
@@ -255,6 +274,8 @@ class Interp:
                 raise Undecided("binary %s" % op)
         if k == "Tup":
             return tuple(self.ev(e, env) for e in n["es"])
+        if k == "Array":
+            return [self.ev(e, env) for e in n["es"]]
         if k == "Index":
             base, i = self.ev(n["e"], env), self.ev(n["i"], env)
             if isinstance(base, (list, str)) and isinstance(i, int) and not isinstance(i, bool):
@@ -326,6 +347,13 @@ class Interp:
                 if isinstance(a, (int, float, str)) and isinstance(b, (int, float, str)) and n["op"] in ("+=", "-=", "*="):
                     env[l["res"]] = a + b if n["op"] == "+=" else (a - b if n["op"] == "-=" else a * b)
                     return ()
+            if l["k"] == "Field":
+                base = self.ev(l["e"], env)
+                if isinstance(base, dict) and l["name"] in base:
+                    a, b = base[l["name"]], self.ev(n["r"], env)
+                    if isinstance(a, (int, float, str)) and isinstance(b, (int, float, str)) and n["op"] in ("+=", "-=", "*="):
+                        base[l["name"]] = a + b if n["op"] == "+=" else (a - b if n["op"] == "-=" else a * b)
+                        return ()
             raise Undecided("compound assignment %s" % render(n)[:60])
         if k == "Ret":
             raise _Return(self.ev(n["e"], env) if "e" in n else ())
@@ -351,7 +379,21 @@ class Interp:
             if short(n.get("res", ""), 1) == "Range":
                 fs = {f["name"]: self.ev(f["e"], env) for f in n["fields"]}
                 return ("range", fs["start"], fs["end"], False)
-            return Opaque(render(n))
+            # a struct literal is a dictionary of its fields; `..base` supplies the rest when it evaluates to a dictionary
+            d = {}
+            if n.get("base") is not None:
+                b = self.ev(n["base"], env)
+                if isinstance(b, dict):
+                    d.update(b)
+                else:
+                    return Opaque(render(n))
+            try:
+                for f in n["fields"]:
+                    d[f["name"]] = self.ev(f["e"], env)
+            except Undecided:
+                return Opaque(render(n))
+            d["__struct"] = short(n.get("res", ""), 1)
+            return d
         raise Undecided("expression kind %s: %s" % (k, render(n)[:80]))
 
     def _bool(self, v, n):
@@ -412,9 +454,32 @@ class Interp:
             return recv
         if m in ("to_string", "as_str", "to_lowercase_ascii") and not n["args"] and isinstance(recv, (str, int)) and not isinstance(recv, bool):
             return str(recv)
+        if m == "to_string" and not n["args"] and isinstance(recv, bool):
+            return "true" if recv else "false"
+        if m == "to_string" and not n["args"] and isinstance(recv, float):
+            return rust_float_str(recv)
         if isinstance(recv, str) and not n["args"] and m in ("to_lowercase", "to_ascii_lowercase", "to_uppercase", "to_ascii_uppercase", "trim", "is_empty", "len"):
             return {"to_lowercase": recv.lower, "to_ascii_lowercase": recv.lower, "to_uppercase": recv.upper, "to_ascii_uppercase": recv.upper,
                     "trim": recv.strip, "is_empty": lambda: recv == "", "len": lambda: len(recv.encode())}[m]()
+        if isinstance(recv, str) and not n["args"] and m == "parse":
+            ty = str(n.get("ty", ""))
+            mt = re.search(r"Result<([a-z0-9]+)", ty)
+            t = mt.group(1) if mt else ""
+            try:
+                if t in ("f64", "f32"):
+                    return V("Result::Ok", [float(recv)])
+                if t in ("u8", "u16", "u32", "u64", "usize", "u128"):
+                    if recv.isdigit() or (recv[:1] == "+" and recv[1:].isdigit()):
+                        return V("Result::Ok", [int(recv)])
+                    return V("Result::Err", [Opaque("ParseIntError")])
+                if t in ("i8", "i16", "i32", "i64", "isize", "i128"):
+                    if re.fullmatch(r"[+-]?[0-9]+", recv):
+                        return V("Result::Ok", [int(recv)])
+                    return V("Result::Err", [Opaque("ParseIntError")])
+                if t == "bool":
+                    return V("Result::Ok", [recv == "true"]) if recv in ("true", "false") else V("Result::Err", [Opaque("ParseBoolError")])
+            except ValueError:
+                return V("Result::Err", [Opaque("ParseFloatError")])
         if isinstance(recv, str) and len(n["args"]) == 2 and m == "replace":
             a, b = self.ev(n["args"][0], env), self.ev(n["args"][1], env)
             if isinstance(a, str) and isinstance(b, str):
@@ -451,6 +516,18 @@ class Interp:
                     if m.startswith("saturating_") and str(n.get("ty", "")).startswith("u"):
                         val = max(val, 0)
                     return val
+        if isinstance(recv, float) and not n["args"] and m in ("fract", "floor", "ceil", "abs", "sqrt", "trunc", "round", "is_nan", "is_finite"):
+            import math
+            try:
+                return {"fract": lambda: math.copysign(abs(recv) - math.floor(abs(recv)), recv), "floor": lambda: float(math.floor(recv)), "ceil": lambda: float(math.ceil(recv)),
+                        "abs": lambda: abs(recv), "sqrt": lambda: math.sqrt(recv), "trunc": lambda: float(math.trunc(recv)), "round": lambda: float(round(recv)),
+                        "is_nan": lambda: recv != recv, "is_finite": lambda: math.isfinite(recv)}[m]()
+            except (ValueError, OverflowError):
+                raise Undecided("float method %s on %r" % (m, recv))
+        if isinstance(recv, float) and len(n["args"]) == 1 and m in ("powi", "powf", "min", "max"):
+            a = self.ev(n["args"][0], env)
+            if isinstance(a, (int, float)) and not isinstance(a, bool):
+                return {"powi": lambda: recv ** a, "powf": lambda: recv ** a, "min": lambda: min(recv, a), "max": lambda: max(recv, a)}[m]()
         if isinstance(recv, set) and len(n["args"]) == 1 and m in ("contains", "insert", "remove"):
             a = self.ev(n["args"][0], env)
             if isinstance(a, (int, str, tuple)):
@@ -478,6 +555,15 @@ class Interp:
                     return V("Result::Ok", [recv.args[0]])
                 e = self.ev(n["args"][0], env)
                 return V("Result::Err", [self.apply(e, []) if m == "ok_or_else" else e])
+            if m == "map" and len(n["args"]) == 1 and recv.name.startswith("Result"):
+                return V("Result::Ok", [self.apply(self.ev(n["args"][0], env), [recv.args[0]])]) if present else recv
+            if m == "and_then" and len(n["args"]) == 1 and recv.name.startswith("Result"):
+                return self.apply(self.ev(n["args"][0], env), [recv.args[0]]) if present else recv
+            if m in ("map_or", "map_or_else") and len(n["args"]) == 2 and recv.name.startswith("Result"):
+                if present:
+                    return self.apply(self.ev(n["args"][1], env), [recv.args[0]])
+                d = self.ev(n["args"][0], env)
+                return self.apply(d, [recv.args[0]]) if m == "map_or_else" else d
             if m in ("map_err",) and len(n["args"]) == 1 and recv.name.startswith("Result"):
                 return recv if present else V("Result::Err", [self.apply(self.ev(n["args"][0], env), [recv.args[0]])])
             if m == "ok" and not n["args"] and recv.name.startswith("Result"):
@@ -540,6 +626,10 @@ class Interp:
                         if self._bool(self.apply(f, [x]), n):
                             return some(i)
                     return NONE
+        if isinstance(recv, list) and m == "contains" and len(n["args"]) == 1:
+            a = self.ev(n["args"][0], env)
+            if not isinstance(a, Opaque) and all(not isinstance(x, Opaque) for x in recv):
+                return a in recv
         if isinstance(recv, list) and m == "get" and len(n["args"]) == 1:
             i = self.ev(n["args"][0], env)
             if isinstance(i, int):
@@ -604,7 +694,7 @@ class Interp:
         for k, part in enumerate(parts):
             out += part
             if k < len(vals):
-                out += str(vals[k])
+                out += rust_float_str(vals[k]) if isinstance(vals[k], float) else str(vals[k])
         return out
 
     def fcall(self, n, env):
